@@ -248,6 +248,19 @@ func (d *rscript) skipBits(i, n int) {
 	}
 }
 
+// write l into cell i: all of it, or the part that fits and an error
+func (d *rscript) writeCell(i int, l string) {
+	g := &d.cells[i]
+	want := "'ok"
+	if room := g.cap - len(g.bits); len(l) > room {
+		g.bits += l[:room]
+		want = "'err"
+	} else {
+		g.bits += l
+	}
+	d.add(op("on", sx.Nat(i), op("wbits", sx.Bits(l))), want)
+}
+
 func (d *rscript) copyRemaining(i int) int {
 	g := &d.cells[i]
 	rem := g.bits[g.rcur:]
@@ -411,6 +424,21 @@ func buildRefs(r *prng.R) *rscript {
 		c2 := d.copyRemaining(p)
 		d.observe(p) // cursors of the source are back
 		d.observe(c2)
+		if r.Chance(60) {
+			// the copy owns its bits: writes on either side, in either order, stay on that side
+			first, second := p, c2
+			if r.Bool() {
+				first, second = c2, p
+			}
+			d.writeCell(first, biasedBits(r, 1+r.Intn(12), 30))
+			d.add(op("on", sx.Nat(second), op("state")), sx.L(sx.Nat(len(d.cells[second].bits)),
+				sx.Nat(len(d.cells[second].bits)-d.cells[second].rcur), sx.Nat(d.cells[second].cap-len(d.cells[second].bits)),
+				sx.Bits(d.cells[second].bits)).String())
+			d.writeCell(second, biasedBits(r, 1+r.Intn(12), 30))
+			d.add(op("on", sx.Nat(first), op("state")), sx.L(sx.Nat(len(d.cells[first].bits)),
+				sx.Nat(len(d.cells[first].bits)-d.cells[first].rcur), sx.Nat(d.cells[first].cap-len(d.cells[first].bits)),
+				sx.Bits(d.cells[first].bits)).String())
+		}
 		d.add(op("on", sx.Nat(c2), op("state")), sx.L(sx.Nat(len(d.cells[c2].bits)), sx.Nat(len(d.cells[c2].bits)),
 			sx.Nat(0), sx.Bits(d.cells[c2].bits)).String())
 		d.readAll(c2)
